@@ -876,7 +876,7 @@ fn main() {
     let args: Vec<String> = std::env::args().collect();
     let seed: u64 = arg(&args, "--seed", "1").parse().unwrap();
     let n: usize = arg(&args, "--n", "200").parse().unwrap();
-    let watchdog: u64 = arg(&args, "--watchdog", "120").parse().unwrap();
+    let watchdog: u64 = arg(&args, "--watchdog", "30").parse().unwrap();
     if std::env::var("C10_SHOW_PANICS").is_err() {
         std::panic::set_hook(Box::new(|_| {}));
     }
@@ -901,7 +901,16 @@ fn main() {
         .map(|w| (*w, tokio::runtime::Builder::new_multi_thread().worker_threads(*w).enable_all().build().unwrap()))
         .collect();
 
-    // fixed witnesses first (every run): all output counts of the spec, boundary round-robin starts, range edge cases
+    // fixed witness of the known finding first (every run): 4 inputs -> 1 output through the shared multi-producer spill
+    // pool (1-byte memory pool), 4 tokio workers; hangs in roughly one run out of four on the pinned tree
+    {
+        let mut wrng = Rng::new(0xC10);
+        let cfg = witness_cfg(&mut wrng);
+        for _ in 0..8 {
+            run_exch(&cfg, &rts[2].1, rts[2].0, 4);
+        }
+    }
+    // fixed witnesses (every run): all output counts of the spec, boundary round-robin starts, range edge cases
     for nn in [1usize, 2, 3, 4, 5, 6, 7, 8, 9, 16, 17, 64] {
         hash_case(&mut rng, Some((nn, vec![0, 1])));
     }
